@@ -43,9 +43,9 @@ PLACERS = ["sa_c", "sa_python", "hilbert", "rcm", "breadth_first",
 def plan(tier, prop):
     quick = tier == "quick"
     return {
-        "runs": 40000 if quick else 3000000,
+        "runs": 150000 if quick else 5000000,
         "budget_s": 55 if quick else 800,
-        "chunk": 100 if quick else 500,
+        "chunk": 500 if quick else 1000,
         "chunk_timeout_s": 900,
         "rule": "each run = one machine (dead chips, per-chip resource "
                 "exceptions), one graph grown net by net (tape operations), "
